@@ -386,7 +386,11 @@ func (vlog *valueLog) rewrite(bucket uint32, fid uint32) error {
 		if diskVP.Bucket != bucket {
 			return nil
 		}
-		if diskVP.Fid > fid || (diskVP.Fid == fid && diskVP.Offset > ptr.Offset) {
+		// Only the record the LSM points at is live. A record behind the live
+		// pointer is stale; one ahead of it was never applied (its WAL record did
+		// not survive a crash) or belongs to another version, and re-inserting it
+		// would bring back a value that is not part of the contents.
+		if diskVP.Fid != fid || diskVP.Offset != ptr.Offset {
 			return nil
 		}
 
